@@ -171,3 +171,10 @@ Definition chk_history_lenient (table : list dsm) (ixs proj : list nat) (refs : 
   end &&
   forallb (fun kr => chk_key_outputs table ixs proj (fst kr) (snd kr) && chk_reference table ixs proj (fst kr) (snd kr)
                      && chk_setspec table ixs proj (fst kr) (snd kr)) refs.
+
+(* compact form of a table entry in the generated cases (record syntax with
+   nested records dominated the parse time): addresses as hex strings, the UDH
+   as one string "<key hex><data hex>/<key hex><data hex>..." ([has] = false: nil map) *)
+Definition sg (st sn : N) (sno : string) (dt dn : N) (dno : string) (has : bool) (udh : string) : dsm :=
+  {| d_id := 0; d_src := {| a_ton := st; a_npi := sn; a_no := hx sno |}; d_dst := {| a_ton := dt; a_npi := dn; a_no := hx dno |};
+     d_udh := if has then Some (flat_map (fun s => match hx s with k :: d => [(k, d)] | [] => [] end) (split_slash udh)) else None |}.
